@@ -38,7 +38,7 @@ def run(ctx):
     ctx.notes = ["widths come from the model path's type options (ReadWritePath.TypeOpts[0]); without them the code assumes 32",
                  "a value is 'supported' when it is a scalar string/ascii/int/uint/bool/bytes/decimal64/float32(not NaN) or a non-empty "
                  "leaf-list of one such kind (decimals of one precision)",
-                 "open findings are rooted in the onos-api dependency; findings with a fix_patch are repaired by /verif/fixes/C17-*.patch"]
+                 "open findings (F-12a, F-12b, F-12e) are rooted in the onos-api dependency; F-12c/d/f/g/h are repaired in /repo (0d53a20, f016b97, 951349c) and the model the run compares with is the repaired code"]
 
 
 def cross_check_in_coq(ctx, n):
@@ -50,7 +50,7 @@ def cross_check_in_coq(ctx, n):
             "Definition cases : list (gval * option (list Z) * res tv * res gval) := [\n" + ";\n".join(cases) + "].\n"
             "Definition agrees (c : gval * option (list Z) * res tv * res gval) : bool :=\n"
             "  match c with (g, o, n, b) =>\n"
-            "    (res_eqb tv_eqb (to_native false g o) n || res_eqb tv_eqb (to_native true g o) n) &&\n"
+            "    res_eqb tv_eqb (to_native true g o) n &&\n"
             "    match n with Ok t => res_eqb gval_eqb (to_gnmi t) b | _ => true end end.\n"
             "Definition bad := Eval vm_compute in List.length (filter (fun c => negb (agrees c)) cases).\n"
             "Print bad.\n")
